@@ -89,6 +89,14 @@ func nilFieldUses(p *Program, fn *ssa.Function, nilled map[*types.Var]ssa.Instru
 			if other == ssa.Value(u) {
 				return true // the very value that was tested
 			}
+			// `if x.f != nil { x.f.M() }`: another load of the same field of the same object
+			if f2, u2 := load(other); u2 != nil && f2 == f {
+				fa1, _ := u.X.(*ssa.FieldAddr)
+				fa2, _ := u2.X.(*ssa.FieldAddr)
+				if fa1 != nil && fa2 != nil && c15Root(fa1.X) == c15Root(fa2.X) {
+					return true
+				}
+			}
 		}
 		return false
 	}
